@@ -251,4 +251,11 @@ def module_state():
             if getattr(type(o), "__module__", "").startswith("typing") or type(o).__name__ in ("TypeVar", "_SpecialForm", "Logger"):
                 continue
             out["%s.%s" % (modname, n)] = S(o)
+    # interpreter-wide settings a render has no business changing
+    import decimal as _d
+    import os as _os
+    out["interpreter.recursionlimit"] = str(sys.getrecursionlimit())
+    out["interpreter.decimal-context"] = repr(_d.getcontext())
+    out["interpreter.TZ"] = repr(_os.environ.get("TZ"))
+    out["interpreter.switchinterval"] = repr(sys.getswitchinterval())
     return out
